@@ -2,6 +2,8 @@ package checks
 
 import (
 	"context"
+	"fmt"
+	"os"
 	"sort"
 	"testing"
 	"testing/synctest"
@@ -40,6 +42,9 @@ type c03Op struct {
 	LS     int    `json:"ls,omitempty"`      // put: index into LabelSets
 	EndOff int    `json:"end_off,omitempty"` // put: end = now + EndOff seconds (<= 0: resolved)
 	Dt     int    `json:"dt,omitempty"`      // advance: seconds
+	// put: the submission was received LateSec seconds ago (its update time, start and end count from then) and only
+	// now reaches the provider: after versions received later (two requests overtaking each other)
+	LateSec int `json:"late_sec,omitempty"`
 }
 
 type c03Scenario struct {
@@ -116,6 +121,9 @@ func genC03(t *rapid.T) c03Scenario {
 		case 0, 1, 2, 3, 4:
 			op := c03Op{Kind: "put", LS: rapid.IntRange(0, len(sc.LabelSets)-1).Draw(t, "ls")}
 			op.EndOff = rapid.SampledFrom([]int{-30, 0, 20, 60, 120, 300, 600, 1200, 3600}).Draw(t, "end")
+			if rapid.IntRange(0, 5).Draw(t, "late") == 0 {
+				op.LateSec = rapid.SampledFrom([]int{5, 40, 200}).Draw(t, "lateSec")
+			}
 			sc.Ops = append(sc.Ops, op)
 			if rapid.Bool().Draw(t, "q") {
 				sc.Ops = append(sc.Ops, c03Op{Kind: "query"})
@@ -173,7 +181,7 @@ func execC03(sc c03Scenario) (res pbt.Result) {
 		}
 		rules = append(rules, amcommoncfg.InhibitRule{SourceMatchers: amcommoncfg.Matchers(src), TargetMatchers: amcommoncfg.Matchers(tgt), Equal: r.Equal})
 	}
-	flips, sharedEqual, updatesOfShared := 0, false, 0
+	flips, sharedEqual, updatesOfShared, lateArrivals := 0, false, 0, 0
 	synctest.Test(pbt.T(), func(*testing.T) {
 		ctx, cancel := context.WithCancel(context.Background())
 		defer cancel()
@@ -199,14 +207,25 @@ func execC03(sc c03Scenario) (res pbt.Result) {
 				synctest.Wait()
 			case "put":
 				ls := sc.LabelSets[op.LS]
-				a := &alert.Alert{Alert: model.Alert{Labels: toLabelSet(ls), StartsAt: now.Add(-time.Second), EndsAt: now.Add(time.Duration(op.EndOff) * time.Second)}, UpdatedAt: now}
+				recv := now.Add(-time.Duration(op.LateSec) * time.Second)
+				a := &alert.Alert{Alert: model.Alert{Labels: toLabelSet(ls), StartsAt: recv.Add(-time.Second), EndsAt: recv.Add(time.Duration(op.EndOff) * time.Second)}, UpdatedAt: recv}
 				if op.EndOff <= 0 {
 					a.StartsAt = a.EndsAt.Add(-time.Second)
+				}
+				if op.LateSec > 0 {
+					if old, err := alerts.Get(a.Fingerprint()); err == nil && old.UpdatedAt.After(recv) {
+						lateArrivals++
+					}
 				}
 				if err := alerts.Put(ctx, a); err != nil {
 					res.Fail("harness", "Put: %v", err)
 				}
 				synctest.Wait() // the inhibitor consumes its own subscription
+				if os.Getenv("VERIF_DEBUG_C03") != "" {
+					if got, err := alerts.Get(a.Fingerprint()); err == nil {
+						fmt.Printf("DEBUG op %d put %v late=%d: sent [%s,%s] upd %s -> stored [%s,%s] upd %s\n", i, ls, op.LateSec, a.StartsAt.Format("04:05.000"), a.EndsAt.Format("04:05.000"), a.UpdatedAt.Format("04:05.000"), got.StartsAt.Format("04:05.000"), got.EndsAt.Format("04:05.000"), got.UpdatedAt.Format("04:05.000"))
+					}
+				}
 				// classification: does this update touch a source that shares equal values with another cached source?
 				for _, r := range sc.Rules {
 					if !ref.MatchAll(r.Source, ls) {
@@ -299,6 +318,9 @@ func execC03(sc c03Scenario) (res pbt.Result) {
 	res.NonTrivial = sharedEqual && updatesOfShared > 0 && flips > 0
 	if sharedEqual {
 		res.Class("shared-equal-sources")
+	}
+	if lateArrivals > 0 {
+		res.Class("late-arrival-of-older-version")
 	}
 	if flips > 0 {
 		res.Class("verdict-flip")
